@@ -308,8 +308,83 @@ def run_shard(args):
                     out["violations"].append({"kind": "site-without-approved-change-was-rewritten", "detail": {**base, "old": old_lf[a:b][:300], "new": new_lf[a2:b2][:300]}, "witness": wit, "finding": None})
         if len(out["samples"]) < 2:
             out["samples"].append({"variant": variant, "templates": sorted(tmpl), "file_head": text[:1400]})
+    # ---- real sessions: the only edit allowed outside snapshot arguments is the added import line
+    nreal = {"quick": 1 if args.shard < 6 else 0, "thorough": 12}[tier]
+    for c in range(nreal):
+        rng = random.Random(f"{args.seed}/{PROP}/import/{args.shard}/{c}")
+        real_session_import_case(rng, out, C)
     out["signatures"] = sorted(out["signatures"])
     return out
+
+
+IMPORT_HEADS = [
+    ("plain", "from inline_snapshot import snapshot, outsource\n"),
+    ("docstring", '"""module docstring"""\n\nfrom inline_snapshot import snapshot, outsource\n'),
+    ("docstring+future", '"""module docstring"""\nfrom __future__ import annotations\n\nimport os\nfrom inline_snapshot import snapshot, outsource\n'),
+    ("future", "from __future__ import annotations\nfrom inline_snapshot import snapshot, outsource\n"),
+    ("docstring+code", '"""module docstring"""\n\nX = 1\nfrom inline_snapshot import snapshot, outsource\n'),
+    ("comment+import-continuation", "# comment é\nimport os, \\\n    sys\nfrom inline_snapshot import (\n    snapshot,\n    outsource,\n)  # trailing\n"),
+    ("shebang+docstring-single-quotes", "#!/usr/bin/env python\n'doc'\nfrom inline_snapshot import snapshot, outsource\n"),
+    ("already-imported", "from inline_snapshot import snapshot, outsource\nfrom inline_snapshot import external\nfrom inline_snapshot import HasRepr\n"),
+    ("try-import", "try:\n    import json\nexcept ImportError:\n    json = None\nfrom inline_snapshot import snapshot, outsource\n"),
+]
+WEIRD = "\n\nclass W:\n    def __repr__(self):\n        return '<W>'\n\n    def __eq__(self, other):\n        return type(other) is W or NotImplemented\n\n"
+
+
+class _DropAddedImports(ast.NodeTransformer):
+    def visit_Module(self, node):
+        body = []
+        for n in node.body:
+            if isinstance(n, ast.ImportFrom) and n.module == "inline_snapshot" and len(n.names) == 1 and n.names[0].name in ("external", "HasRepr") and n.names[0].asname is None:
+                continue
+            body.append(n)
+        node.body = body
+        return node
+
+
+def real_session_import_case(rng, out, C):
+    from .. import session
+
+    hname, head = rng.choice(IMPORT_HEADS)
+    tests = ""
+    kinds = rng.sample(["external", "hasrepr", "plain"], rng.randint(1, 3))
+    if "hasrepr" in kinds:
+        tests += "def test_w():\n    assert W() == snapshot()\n\n\n"
+    if "external" in kinds:
+        tests += "def test_e():\n    assert outsource('payload é') == snapshot()\n\n\n"
+    if "plain" in kinds:
+        tests += "def test_p():\n    assert [1, 2] == snapshot([1])\n\n\n"
+    src = head + WEIRD + "\n" + tests
+    proj = session.Project({"test_a.py": src}, with_vp=False)
+    try:
+        r = session.run_session(proj, ["--inline-snapshot=create,fix"])
+        r2 = session.run_session(proj, ["--inline-snapshot=disable"])
+    finally:
+        proj.close()
+    C["real_sessions"] = C.get("real_sessions", 0) + 2
+    out["evaluations"] += 1
+    out["signatures"].add(f"real-session-import/{hname}/{'+'.join(sorted(kinds))}")
+    wit = {"files": {"test_a.py": src}, "args": ["--inline-snapshot=create,fix"]}
+    base = {"head": hname, "kinds": sorted(kinds)}
+    new = r.after.get("test_a.py", b"").decode()
+    if any(a["kind"] == "sessionfinish_exception" for a in r.audit):
+        out["violations"].append({"kind": "session-end-raised", "detail": {**base, "events": [a for a in r.audit if a["kind"] == "sessionfinish_exception"]}, "witness": wit, "finding": None})
+        return
+    try:
+        new_tree = ast.parse(new)
+    except SyntaxError as e:
+        out["violations"].append({"kind": "unparsable", "detail": {**base, "error": str(e), "new": new[:1500]}, "witness": wit, "finding": None})
+        return
+    old_tree = ast.parse(src)
+    if ast.get_docstring(old_tree) != ast.get_docstring(new_tree):
+        out["violations"].append({"kind": "module-docstring-changed", "detail": {**base, "new_head": new[:400]}, "witness": wit, "finding": None})
+    a = ast.dump(_MaskArgs().visit(_DropAddedImports().visit(old_tree)))
+    b = ast.dump(_MaskArgs().visit(_DropAddedImports().visit(new_tree)))
+    # the original may already import the names: dropped on both sides
+    if a != b:
+        out["violations"].append({"kind": "syntax-tree-outside-snapshot-arguments-changed(real session)", "detail": {**base, "new_head": new[:600]}, "witness": wit, "finding": None})
+    if r2.exit != 0:
+        out["violations"].append({"kind": "rewritten-file-does-not-run(real session)", "detail": {**base, "exit": r2.exit, "stdout_tail": r2.stdout[-500:], "new_head": new[:500]}, "witness": wit, "finding": None})
 
 
 def replay(data):
